@@ -1,25 +1,226 @@
 //! expert-node world (C14)
 //!
+//! Three constructions written with `incremental::expert` (see `world.rs`): `join` and `bind`
+//! exactly as in `/repo/tests/expert.rs`, and a *dynamic sum* whose dependencies (with
+//! multiplicity) are selected by a var and maintained by a selector Map node that is the
+//! expert node's static dependency. Candidate children: var watch nodes (a, b), a shared map
+//! node (m = a+100) and the node created inside a regular `bind` over var k (invalidatable).
+//!
+//! Families (`hx dev expert <family> <depth> [congruence=3]`); every program is one unit; the
+//! program lists do not depend on the tier, tiers differ by depth. Measured single-core (`dev`),
+//! release profile, unfixed engine (dbg within 10 %); "max unit" = slowest single unit, i.e. the
+//! wall-clock floor when units are spread over workers:
+//!
+//! | family | units | what                                                        | quick depth: states / transitions / core-s (max unit) | thorough depth: states / transitions / core-s (max unit) |
+//! |--------|-------|-------------------------------------------------------------|--------------------------------------------------------|-----------------------------------------------------------|
+//! | `sum`  | 10    | dynamic sum: duplicates with first / middle / last removal, shared + invalidatable children, make_stale, invalidate, dependant | 8: 440 k / 1.06 M / 40-55 s (12 s) | 11: 10.2 M / 28.8 M / ~3 500 s (570 s) |
+//! | `join` | 3     | tests/expert.rs join over Var<Incr>, incl. invalidatable rhs | 9: 288 k / 634 k / 28-38 s (22 s)   | 11: 2.2 M / 5.5 M / ~680 s (510 s)     |
+//! | `bind` | 3     | tests/expert.rs bind, rhs pre-existing / bind-made / fresh   | 10: 326 k / 784 k / 33-40 s (18 s)  | 12: 1.7 M / 4.4 M / ~800 s (350 s)     |
+//! | `wide` | 6     | the same constructions with 4-5 candidates and full alphabets | (not in quick) 6: 210 k / 502 k / 18 s | 7: 1.06 M / 2.5 M / 120 s (60 s); depth 8 hits the 3 M state cap in one unit (use split_first) |
+//! | `all`  | 16    | join + bind + sum                                            | 8                                                      | 10                                                        |
+//!
+//! Quick = `sum` 8 + `join` 9 + `bind` 10 in both profiles: about 270 core-s, i.e. 20-30 s on
+//! 16 workers. Run with pruning (all closure state is harness-owned and part of `canon()`);
+//! `congruence=3` reports no MACHINERY line on any family.
+//!
+//! Oracle rules (all property C14): C14.value, C14.wedged, C14.callback_missing,
+//! C14.callback_stale, C14.make_stale, C14.invalidate, C14.panic - see `world.rs` for their
+//! exact meaning and the deliberate slack.
+//!
 //! Entry points used by `plan.rs` (keep these four signatures).
+
+mod world;
 
 use crate::core::{Cfg, Violation};
 use crate::explore::{Marker, Stats};
 use crate::plan::{JobDef, Tier};
 use serde_json::Value as Json;
 use std::time::Instant;
+use world::{Cand, Cons, ExpertWorld, Pick, Prog};
 
-pub fn units(_job: &JobDef, _tier: Tier) -> usize {
-    0
+fn base(name: &str, cons: Cons, cands: &[Cand]) -> Prog {
+    Prog {
+        name: name.to_string(),
+        cons,
+        cands: cands.to_vec(),
+        max_mult: 2,
+        pick: Pick::First,
+        add_first: true,
+        init: match cons {
+            Cons::Sum => vec![0; cands.len()],
+            _ => vec![0],
+        },
+        pin_m: false,
+        pin_bnd: false,
+        toggles: vec![],
+        stale: false,
+        inval: false,
+        obs_d: false,
+    }
 }
 
-pub fn run_unit(_job: &JobDef, _job_ix: u32, _unit: usize, _tier: Tier, _deadline: Option<Instant>, _marker: &Marker, stats: &mut Stats) {
-    stats.machinery_errors.push("world not implemented".into());
+pub fn programs(family: &str, tier: Tier) -> Vec<Prog> {
+    use Cand::*;
+    // the program lists do not depend on the tier: tiers differ by depth (table above)
+    let _ = tier;
+    let wide = family == "wide";
+    let mut out = vec![];
+    if family == "join" || family == "all" {
+        // pre-existing nodes only
+        let mut p = base("join/am", Cons::Join, &[A, M]);
+        p.toggles = vec![0];
+        p.obs_d = true;
+        out.push(p);
+        // invalidatable rhs; the regular bind is kept necessary by a pinned observer
+        let mut p = base("join/ai", Cons::Join, &[A, Inner]);
+        p.toggles = vec![2, 1];
+        p.pin_bnd = true;
+        out.push(p);
+        let mut p = base("join/ami+d", Cons::Join, &[A, M, Inner]);
+        p.toggles = vec![2, 0];
+        p.pin_bnd = true;
+        p.pin_m = true;
+        p.obs_d = true;
+        out.push(p);
+    }
+    if wide {
+        {
+            let mut p = base("join/abmi", Cons::Join, &[A, B, M, Inner]);
+            p.toggles = vec![0, 1, 2];
+            p.pin_bnd = true;
+            p.obs_d = true;
+            out.push(p);
+        }
+    }
+    if family == "bind" || family == "all" {
+        let mut p = base("bind/amf", Cons::Bind, &[A, M, Fresh]);
+        p.toggles = vec![0];
+        p.obs_d = true;
+        out.push(p);
+        let mut p = base("bind/ai", Cons::Bind, &[A, Inner]);
+        p.toggles = vec![2, 1];
+        out.push(p);
+        let mut p = base("bind/ifm-pinned", Cons::Bind, &[Inner, Fresh, M]);
+        p.toggles = vec![2, 0];
+        p.pin_bnd = true;
+        p.pin_m = true;
+        out.push(p);
+    }
+    if wide {
+        {
+            let mut p = base("bind/abmif", Cons::Bind, &[A, B, M, Inner, Fresh]);
+            p.toggles = vec![0, 1, 2];
+            p.obs_d = true;
+            out.push(p);
+        }
+    }
+    if family == "sum" || family == "all" {
+        // duplicates on plain vars; every removal position
+        for (pick, add_first) in [(Pick::First, true), (Pick::Last, false)] {
+            let mut p = base(&format!("sum/ab-dup-{pick:?}"), Cons::Sum, &[A, B]);
+            p.pick = pick;
+            p.add_first = add_first;
+            p.toggles = vec![0];
+            out.push(p);
+        }
+        let mut p = base("sum/a-dup3-middle", Cons::Sum, &[A, B]);
+        p.max_mult = 3;
+        p.pick = Pick::Middle;
+        p.toggles = vec![0];
+        out.push(p);
+        // shared, already computed child
+        let mut p = base("sum/am-shared", Cons::Sum, &[A, M]);
+        p.pin_m = true;
+        p.pick = Pick::Last;
+        p.toggles = vec![0];
+        p.obs_d = true;
+        out.push(p);
+        // invalidatable child, bind necessary only through the expert node
+        let mut p = base("sum/ai", Cons::Sum, &[A, Inner]);
+        p.toggles = vec![2, 1];
+        out.push(p);
+        // invalidatable child, bind pinned (is invalidated while the expert node is unobserved)
+        let mut p = base("sum/ai-pinned", Cons::Sum, &[A, Inner]);
+        p.pin_bnd = true;
+        p.toggles = vec![2];
+        p.pick = Pick::Last;
+        p.add_first = false;
+        out.push(p);
+        let mut p = base("sum/i-dup-pinned", Cons::Sum, &[Inner]);
+        p.pin_bnd = true;
+        p.toggles = vec![2, 1];
+        p.init = vec![1];
+        out.push(p);
+        // make_stale / invalidate with a dependant
+        let mut p = base("sum/a-stale-inval", Cons::Sum, &[A]);
+        p.max_mult = 1;
+        p.toggles = vec![0];
+        p.stale = true;
+        p.inval = true;
+        p.obs_d = true;
+        p.init = vec![1];
+        out.push(p);
+        let mut p = base("sum/ami-1", Cons::Sum, &[A, M, Inner]);
+        p.max_mult = 1;
+        p.toggles = vec![0, 2];
+        p.stale = true;
+        out.push(p);
+        let mut p = base("sum/mi-inval", Cons::Sum, &[M, Inner]);
+        p.max_mult = 1;
+        p.toggles = vec![2];
+        p.inval = true;
+        p.obs_d = true;
+        p.init = vec![1, 1];
+        out.push(p);
+    }
+    if wide {
+        {
+            let mut p = base("sum/abmi-dup", Cons::Sum, &[A, B, M, Inner]);
+            p.toggles = vec![0, 1, 2];
+            p.pin_m = true;
+            p.obs_d = true;
+            out.push(p);
+            let mut p = base("sum/ai-dup-all", Cons::Sum, &[A, Inner]);
+            p.toggles = vec![0, 1, 2];
+            p.stale = true;
+            p.inval = true;
+            p.obs_d = true;
+            p.pick = Pick::Last;
+            out.push(p);
+            let mut p = base("sum/am-dup3", Cons::Sum, &[A, M]);
+            p.max_mult = 3;
+            p.pick = Pick::Middle;
+            p.add_first = false;
+            p.toggles = vec![0];
+            p.stale = true;
+            out.push(p);
+            let mut p = base("sum/ai-pinned-dup-first", Cons::Sum, &[A, Inner]);
+            p.pin_bnd = true;
+            p.toggles = vec![2, 1];
+            p.obs_d = true;
+            out.push(p);
+        }
+    }
+    out
 }
 
-pub fn replay(_cfg: &Cfg, _prog: &Json, _history: &[Json]) -> Result<(Vec<(usize, Violation)>, Vec<String>, u64), String> {
-    Err("world not implemented".into())
+pub fn units(job: &JobDef, tier: Tier) -> usize {
+    crate::driver::units::<ExpertWorld>(&programs(&job.family, tier), job)
 }
 
-pub fn history_from_choices(_job: &JobDef, _unit: usize, _tier: Tier, _choices: &[u16]) -> Option<(Json, Vec<Json>)> {
-    None
+pub fn run_unit(job: &JobDef, job_ix: u32, unit: usize, tier: Tier, deadline: Option<Instant>, marker: &Marker, stats: &mut Stats) {
+    let progs = programs(&job.family, tier);
+    if progs.is_empty() {
+        stats.machinery_errors.push(format!("expert world: unknown family {}", job.family));
+        return;
+    }
+    crate::driver::run_unit::<ExpertWorld>(&progs, job, job_ix, unit, deadline, marker, stats)
+}
+
+pub fn replay(cfg: &Cfg, prog: &Json, history: &[Json]) -> Result<(Vec<(usize, Violation)>, Vec<String>, u64), String> {
+    crate::driver::replay::<ExpertWorld>(cfg, prog, history)
+}
+
+pub fn history_from_choices(job: &JobDef, unit: usize, tier: Tier, choices: &[u16]) -> Option<(Json, Vec<Json>)> {
+    crate::driver::history_from_choices::<ExpertWorld>(&programs(&job.family, tier), job, unit, choices)
 }
